@@ -45,10 +45,21 @@ func init() {
 		"strings.LastIndex": func(m *Machine, fn *ssa.Function, a []Value) Value {
 			s, ok1 := forceLazy(a[0]).(string)
 			sub, ok2 := forceLazy(a[1]).(string)
-			if !ok1 || !ok2 {
-				unsupported("strings.LastIndex on symbolic strings")
+			if ok1 && ok2 {
+				return int64(strings.LastIndex(s, sub))
 			}
-			return int64(strings.LastIndex(s, sub))
+			if !ok2 || len([]rune(sub)) != 1 {
+				unsupported("strings.LastIndex with a symbolic or multi-rune separator")
+			}
+			// (rune index == byte index on ASCII subjects; callers that slice with it carry the ASCII guard)
+			st, sep := toTerm(forceLazy(a[0])), StrT(sub)
+			if !m.branch(fromTerm(Contains(st, sep))) {
+				return int64(-1)
+			}
+			i := m.freshVar("lastidx", SInt)
+			m.assume(And(Ge(i, IntT(0)), Lt(i, Len(st)), Eq(At(st, i), sep),
+				Not(Contains(Substr(st, Add(i, IntT(1)), Sub(Len(st), Add(i, IntT(1)))), sep))))
+			return i
 		},
 		"strings.Split":      inSplit,
 		"strings.Trim":       inTrim,
